@@ -58,6 +58,17 @@ class Writers:
                    ["sleep", 30], ["write", "dead00000000", 0], ["write", "beef00000000", 1], ["sleep", 60]]
         elif self.mode == "in-callbacks":
             st += [["send", "c1", S.frame(S.UPDATE, bytes(4)).hex(), 0], ["send", "c1", S.frame(S.UPDATE, bytes(5)).hex(), 0], ["sleep", 1100]]
+        elif self.mode == "teardown-out":
+            # the same on the long-lived outbound FSM object: session 1 ends with the remote's Cease, corebgp re-dials and
+            # re-establishes; the writer of session 1 must stay dead
+            st = [["accept", "c1", 2500], ["recv", "c1", 1, 1500], ["send", "c1", OPENM, 0], ["send", "c1", KAM, 0], ["recv", "c1", 2, 1500],
+                  ["sleep", 30], ["writers", self.g, self.m, self.sz, "async"], ["sleep", 15],
+                  ["send", "c1", S.frame(S.NOTIF, S.notif_body(6, 2)).hex(), 0], ["recv_eof", "c1", 1500], ["sleep", 20],
+                  ["accept", "c2", 2500], ["recv", "c2", 1, 1500], ["send", "c2", OPENM, 0], ["send", "c2", KAM, 0], ["recv", "c2", 2, 1500],
+                  ["sleep", 30], ["write", "dead00000000", 0], ["write", "beef00000000", 1], ["sleep", 60]]
+        elif self.mode == "write-after-reset":
+            # the connection is reset while the handler is busy; the handler then writes: the calls must fail
+            st += [["send", "c1", S.frame(S.UPDATE, bytes(4)).hex(), 0], ["sleep", 60], ["reset", "c1"], ["sleep", 900]]
         elif self.mode == "in-onclose":
             # the session is ended (by the remote's Cease, or by our own handler's NOTIFICATION); the plugin uses the
             # writer it kept from inside OnClose: the call must fail and nothing may follow on the wire
@@ -66,12 +77,16 @@ class Writers:
             else:
                 st += [["send", "c1", S.frame(S.NOTIF, S.notif_body(6, 2)).hex(), 0]]
             st += [["recv_eof", "c1", 1500], ["sleep", 50]]
-        return {"id": self.sid, "local_as": 65001, "remote_as": 65000, "local_id": 0x0A000001, "hold": self.hold, "passive": True,
+        return {"id": self.sid, "local_as": 65001, "remote_as": 65000, "local_id": 0x0A000001, "hold": self.hold,
+                "passive": self.mode != "teardown-out", "idle_hold_ms": 100 if self.mode == "teardown-out" else 3000,
+                "handler_delay_ms": 400 if self.mode == "write-after-reset" else 0,
+                "handler_write_n": 3 if self.mode == "write-after-reset" else 1,
                 "onclose_write": "cc00000000" if self.mode == "in-onclose" else "",
                 "handler": [[6, 4, ""]] if (self.mode == "in-onclose" and self.g) else [],
-                "idle_hold_ms": 3000, "connect_retry_ms": 3000, "caps": [], "on_open": None,
+                "connect_retry_ms": 3000, "caps": [], "on_open": None,
                 "est_writes": ["aa00000000", "ab00000000"] if self.mode == "in-callbacks" else [],
-                "handler_writes": {"0": "ac00000000", "1": "ad00000000"} if self.mode == "in-callbacks" else {},
+                "handler_writes": {"0": "ac00000000", "1": "ad00000000"} if self.mode == "in-callbacks" else
+                                  ({"0": "ae00000000"} if self.mode == "write-after-reset" else {}),
                 "steps": st}
 
     def model_case(self):
@@ -95,7 +110,7 @@ class Writers:
                     if b[4:] != want or len(b) != 4 + self.sz:
                         bad.append("UPDATE body of writer %d seq %d corrupted" % (g, i))
                     seen.setdefault(g, []).append(i)
-        if self.mode != "in-callbacks":
+        if self.mode not in ("in-callbacks", "write-after-reset", "in-onclose"):
             for g, l in seen.items():
                 if l != sorted(l):
                     bad.append("writer %d: UPDATEs out of call order: %s" % (g, l[:12]))
@@ -105,12 +120,19 @@ class Writers:
             want = len(ok_writes)
             if self.mode == "steady" and got != want:
                 bad.append("%d WriteUpdate calls returned nil but %d UPDATEs arrived" % (want, got))
-            if self.mode == "teardown" and got > want:
+            if self.mode in ("teardown", "teardown-out") and got > want:
                 bad.append("%d UPDATEs arrived for %d successful writes" % (got, want))
         if self.mode == "steady":
             if len((r["writes"] or [])) != self.g * self.m:
                 bad.append("only %d of %d WriteUpdate calls returned (deadlock?)" % (len((r["writes"] or [])), self.g * self.m))
-        if self.mode == "teardown" and "c2" in conns:
+        if self.mode == "write-after-reset":
+            hw = [w for w in (r["writes"] or []) if w["name"] == "handler"]
+            if len(hw) < 3:
+                bad.append("WriteUpdate from the handler after the connection was reset did not return (%d of 3)" % len(hw))
+            elif any(w["err"] == "" for w in hw):
+                bad.append("WriteUpdate returned nil %d time(s) on a connection that had been reset 300 ms earlier (nothing can have "
+                           "reached the remote)" % sum(1 for w in hw if w["err"] == ""))
+        if self.mode in ("teardown", "teardown-out") and "c2" in conns:
             c2 = conns["c2"]
             bodies = [m["b"] for m in c2["msgs"] or [] if m["t"] == 2]
             if "dead00000000" in bodies:
@@ -162,6 +184,9 @@ def items(rng, tier):
         for g in (0, 1):
             for hold in (3, 0):
                 out.append(Writers(sid, g, 0, 0, "in-onclose", hold=hold)); sid += 1
+        out.append(Writers(sid, 4, 200, 50, "teardown-out")); sid += 1
+        out.append(Writers(sid, 2, 100, 10, "teardown-out", hold=0)); sid += 1
+        out.append(Writers(sid, 0, 0, 0, "write-after-reset")); sid += 1
     return out
 
 
